@@ -1203,13 +1203,14 @@ impl<Alloc: BrotliAlloc> BrotliEncoderStateStruct<Alloc> {
         } else {
             true
         };
-        let max_dict_size: usize = (1usize << self.params.lgwin).wrapping_sub(16);
         DestroyHasher(&mut self.m8, &mut self.hasher_);
         self.hasher_ = opt_hasher;
         let mut dict_size: usize = size;
         if !self.ensure_initialized() {
             return;
         }
+        // the window the stream header declares: lgwin only after SanitizeParams has clamped it
+        let max_dict_size: usize = (1usize << self.params.lgwin).wrapping_sub(16);
         // a one-byte dictionary is placed like any other: the decoder uses every non-empty
         // dictionary, so ignoring it here would leave the two sides one position apart
         if dict_size == 0 || self.params.quality == 0 || self.params.quality == 1 {
